@@ -174,5 +174,21 @@ META.update({
         technique='Coq theorem over translated step programs (regenerated from source each run) + watchdog/ledger stress'),
 })
 
+META.update({
+    'C11': dict(
+        text='Theorems Props.C11, C11_adds, C11_mux_order (Coq, no axioms): for both routers, every oracle and every history of Add / '
+             'Remove / Route / RemoveRoute / Handle (roots not added while registered; plain patterns registered once and not '
+             'colliding with service patterns) no operation panics or exits, the fresh build of the final content does not fail, and '
+             'history-built and fresh-built container answer every request identically through ServeHTTP (modelled ServeMux incl. '
+             'redirects, plain handlers) and Dispatch; adding services with pairwise different roots never panics whatever their '
+             'templates share. Proved on the model of the REPAIRED code: the check first showed the three defects on the real code '
+             '(Remove unregistering everything, Add panicking on shared prefixes, Handle registrations lost: fixed F4a, F4b). The '
+             'model is tied to /repo by running generated histories and probes on the real Container (status, handler identity, '
+             'Location) against the extracted model, and by comparing the implementation with its own fresh build.',
+        design_ref='DESIGN.md section 6, C11',
+        note='trusted: Coq kernel, extraction+driver, Go harness; net/http ServeMux modelled (not verified); regexp oracle; differential tie',
+        technique=TECH),
+})
+
 ALL = ['C%02d' % i for i in range(1, 20)]
 NOT_APPLICABLE = [dict(property_id=p, reason=PARTIAL_NOT_YET) for p in ALL if p not in META]
